@@ -91,6 +91,8 @@ class Unit:
         self.stores_address = stores_address
         self.dtr0_stuck = dtr0_stuck
         self.write_enable = False
+        self.dtr0_skip = ()          # indices of accepted memory writes after which DTR0 is NOT incremented
+        self.nmemwrites = 0
         self.dt_iter = None
         self.level = 254
         # DT8 colour temperature
@@ -168,7 +170,13 @@ class Unit:
         if not isinstance(loc, int):
             loc = loc.concretize()
         r = bank.write(loc, value)
-        if not self.dtr0_stuck:
+        i = self.nmemwrites
+        self.nmemwrites += 1
+        skip = False
+        for k in self.dtr0_skip:
+            if k == i:
+                skip = True
+        if not self.dtr0_stuck and not skip:
             self.dtr0 = loc + 1 if loc < 255 else 255
         return r if reply else None
 
